@@ -22,7 +22,7 @@ use cw1::CanExecuteResponse;
 use cw1_subkeys::msg::{AllAllowancesResponse, AllPermissionsResponse, ExecuteMsg, QueryMsg};
 use cw1_subkeys::state::{Allowance, Permissions};
 use cw1_whitelist::msg::{AdminListResponse, InstantiateMsg};
-use cw_multi_test::{Contract, ContractWrapper, Executor};
+use cw_multi_test::{Contract, Executor};
 use serde_json::{json, Value};
 use std::cell::Cell;
 
@@ -85,17 +85,9 @@ impl Contract<Empty> for Prober {
 
 fn proxy_code(flavour: &str) -> Box<dyn Contract<Empty>> {
     let real: Box<dyn Contract<Empty>> = if flavour == "whitelist" {
-        Box::new(ContractWrapper::new(
-            cw1_whitelist::contract::execute,
-            cw1_whitelist::contract::instantiate,
-            cw1_whitelist::contract::query,
-        ))
+        crate::contract_code!(cw1_whitelist, has_reply_cw1_whitelist, has_sudo_cw1_whitelist, has_migrate_cw1_whitelist)
     } else {
-        Box::new(ContractWrapper::new(
-            cw1_subkeys::contract::execute,
-            cw1_subkeys::contract::instantiate,
-            cw1_subkeys::contract::query,
-        ))
+        crate::contract_code!(cw1_subkeys, has_reply_cw1_subkeys, has_sudo_cw1_subkeys, has_migrate_cw1_subkeys)
     };
     Box::new(Prober { inner: Recorded::new("cw1", real) })
 }
